@@ -1090,7 +1090,7 @@ impl Simulation for EditSim {
   }
   fn describe(&self) -> Describe {
     Describe {
-      rule: "a case = (language out of 21, document of 1-14 corpus snippets, optionally starting with blanks or CRLF, history of 1-12 operations: snippet insert, line delete, identifier replace incl. multi-byte, AstGrep::replace from real matches, AstGrep::replace of the root node by a kind matcher, re-layout (a run of blanks replaced by another), arbitrary fragment insert/delete at char boundaries, span replace, injected Doc::parse failure); after every successful operation whose text parses without ERROR/MISSING the document text, full DFS dump (kind id, named, missing, byte range, row/col points, child count, field name) and find_all of probe patterns are compared with a fresh parse; non-trivial = at least one such clean-state comparison happened; distinct = projected trace (language, faulting?, per-op (kind, line-count change, multi-byte, clean/dirty/fault)) not seen before".into(),
+      rule: "a case = (language out of 21, document of 1-14 corpus snippets, optionally starting with blanks or CRLF, history of 1-12 operations: snippet insert, line delete, identifier replace incl. multi-byte, AstGrep::replace from real matches, AstGrep::replace of the root node by a kind matcher, re-layout (a run of blanks replaced by another), same-length edits that turn a line break into a blank and back, arbitrary fragment insert/delete at char boundaries, span replace, injected Doc::parse failure, bystander steps in which the same thread parses and searches an unrelated document and its embedded documents; patterns handed to the library as compiled objects or, in 30% of the histories, as text); after every successful operation whose text parses without ERROR/MISSING the document text, full DFS dump (kind id, named, missing, byte range, row/col points, child count, field name) and find_all of probe patterns are compared with a fresh parse made by a parser object of its own; every replacement is also compared with a reference model of the template (variables of a fresh parse moved to the indentation of their template line, the whole to that of the matched line) and the replaced span with the pattern spelled out; non-trivial = at least one such clean-state comparison happened; distinct = projected trace (language, faulting?, per-op (kind, line-count change, multi-byte, clean/dirty/fault)) not seen before".into(),
       assumptions: vec![
         "tree-sitter itself is trusted: when raw tree-sitter used with independently computed InputEdits also disagrees with a fresh parse, the case is counted as parser_library_divergence and the history stops there".into(),
         "texts that do not parse cleanly are not compared (the property quantifies over error-free results); they are still traversed as intermediate states".into(),
